@@ -119,6 +119,15 @@ func (tr *c14Transport) RoundTrip(creq *http.Request) (*http.Response, error) {
 		t.Err, t.Faulted = errTransport, f.Kind
 		return nil, errTransport
 	}
+	if f != nil && f.Kind == "early-status" {
+		// the server answers without reading a byte of the body (an
+		// authorisation or precondition refusal, a proxy)
+		t.Faulted, t.Status, t.RealStatus = f.Kind, f.Arg, 0
+		t.Header = http.Header{"Content-Type": {"text/plain; charset=utf-8"}}
+		t.Body = []byte("refused before the body was read\n")
+		return &http.Response{Status: fmt.Sprintf("%d %s", t.Status, http.StatusText(t.Status)), StatusCode: t.Status, Proto: "HTTP/1.1", ProtoMajor: 1, ProtoMinor: 1,
+			Header: t.Header, Body: io.NopCloser(bytes.NewReader(t.Body)), ContentLength: int64(len(t.Body)), Request: creq}, nil
+	}
 	if f != nil && f.Kind == "stall" {
 		// the server never answers; only the context can end this
 		t.Faulted = f.Kind
@@ -173,6 +182,15 @@ func (tr *c14Transport) RoundTrip(creq *http.Request) (*http.Response, error) {
 		case "status-daverror":
 			t.Status, t.Body = f.Arg, []byte(xmlHdr+`<D:error xmlns:D="DAV:"><D:lock-token-submitted><D:href>/locked/</D:href></D:lock-token-submitted></D:error>`)
 			t.Header = http.Header{"Content-Type": {rt.Pick(rt.NewRand(uint64(f.Arg)), []string{"application/xml", "text/xml; charset=utf-8", `application/xml; charset="utf-8"`})}}
+		case "status-daverror-large":
+			var sb strings.Builder
+			sb.WriteString(xmlHdr + `<D:error xmlns:D="DAV:"><D:lock-token-submitted>`)
+			for i := 0; i < 40+f.Arg%300; i++ {
+				fmt.Fprintf(&sb, "<D:href>/locked/collection/member-%04d.txt</D:href>", i)
+			}
+			sb.WriteString(`</D:lock-token-submitted></D:error>`)
+			t.Status, t.Body = f.Arg, []byte(sb.String())
+			t.Header = http.Header{"Content-Type": {"application/xml; charset=utf-8"}}
 		case "status-xml-garbage":
 			t.Status, t.Body = f.Arg, []byte(`<not-closed><x>`)
 			t.Header = http.Header{"Content-Type": {"application/xml"}}
@@ -433,7 +451,10 @@ func doCallWith(ctx context.Context, c *DavCall, cs *clientSet) (res callResult)
 			wc, err := cl.Create(ctx, c.Path)
 			res.Err = err
 			if err == nil {
-				wc.Write(c.Data)
+				// several writes: a caller keeps streaming whatever the server does
+				for off := 0; off < len(c.Data); off += 8 {
+					wc.Write(c.Data[off:min(off+8, len(c.Data))])
+				}
 				res.Err = wc.Close()
 			}
 		case "RemoveAll":
@@ -721,7 +742,7 @@ func (ex *executor) callStep(idx int, st *Step) {
 			bad("missing-error", fmt.Sprintf("the server answered %d but the call returned no error", last.Status))
 		case !errors.As(res.Err, &he) || he.Code != last.Status:
 			bad("error-without-code", fmt.Sprintf("the server answered %d; the call returned %q, which does not carry that status", last.Status, res.Err))
-		case last.Faulted == "status-daverror" && !strings.Contains(res.Err.Error(), "lock-token-submitted"):
+		case (last.Faulted == "status-daverror" || last.Faulted == "status-daverror-large") && !strings.Contains(res.Err.Error(), "lock-token-submitted"):
 			bad("dav-error-lost", fmt.Sprintf("the server answered %d with a DAV:error body naming lock-token-submitted; the error is %q", last.Status, res.Err))
 		}
 		return
@@ -837,6 +858,8 @@ func faultClass(t *trip) string {
 	switch {
 	case t.Faulted == "":
 		return " undisturbed"
+	case t.Faulted == "early-status":
+		return fmt.Sprintf(" early-status %dxx", t.Status/100)
 	case strings.HasPrefix(t.Faulted, "status-"):
 		return fmt.Sprintf(" %s %dxx", t.Faulted, t.Status/100)
 	case strings.HasPrefix(t.Faulted, "cut-"):
